@@ -136,3 +136,35 @@ Theorem migrate_preserves : forall s s' evs, accepted s Migrate s' evs ->
 Proof.
   intros s s' evs A. apply accepted_exec in A. simpl in A. des A. inv A. simpl. repeat split; reflexivity.
 Qed.
+
+(* ---------- (d) what the genesis round trip preserves (with the registry restored by InitGenesis) ---------- *)
+Theorem export_import_preserves : forall s,
+  let s' := export_import s in
+  pool s' = pool s /\ batches s' = batches s /\ by_block s' = by_block s /\
+  evn s' = evn s /\ obs_ext s' = obs_ext s /\ obs_fx s' = obs_fx s /\ fxh s' = fxh s /\
+  bal s' = bal s /\ prm s' = prm s /\ toks s' = toks s /\ relation s' = relation s /\
+  (* ... and what it does not (finding C05-2) *)
+  next_tx s' = 1 /\ next_batch s' = 1 /\ next_call s' = 1 /\
+  calls s' = [] /\ by_sender s' = [] /\ from_msg s' = [] /\ pending s' = [].
+Proof. intros s. simpl. repeat split; reflexivity. Qed.
+
+(* ---------- (e) finding C05-3: the refund of a bridge call carrying an externally owned ERC-20 cannot be paid ---------- *)
+Definition w_params_c : params := {| p_batch_timeout := 60000; p_avg_block := 7000; p_avg_ext := 1200000; p_call_timeout := 3600001; p_max_elems := 100 |}.
+Definition e_ledger : ledger := [((0, 4, 2), 1000); ((0, 0, 0), 5000); ((MODULE, 0, 0), 1000000); ((MODULE, 4, 1), 100000)].
+Definition e_init : state := init w_params_c [(0, KNative); (4, KErc)] e_ledger 2.
+Definition e_ops : list op := [Observe 1000; BridgeCallP 0 1 0 [(4, 60)] 2 [1] []; ObserveResult 1 false 1001].
+Definition e_state : state := run e_init e_ops.
+
+Lemma erc20_call_refund_impossible :
+  reachable e_state /\
+  map c_nonce (calls e_state) = [1] /\ map c_timeout (calls e_state) = [1003] /\ pending e_state = [(2, (1, false))] /\
+  (* the tokens are escrowed / locked: the caller paid *)
+  get_bal (bal e_state) (0, 4, 2) = 940 /\ get_bal (bal e_state) (ERC20MOD, 4, 2) = 60 /\ get_bal (bal e_state) (MODULE, 4, 1) = 100060 /\
+  (* the failure result cannot be executed, and no event at or after the time-out can be observed *)
+  snd (step e_state (ExecResult 2)) = Panic /\
+  snd (step e_state (Observe 1003)) = Panic /\ snd (step e_state (Observe 5000)) = Panic /\
+  snd (step e_state (Observe 1002)) = Ok.
+Proof.
+  split; [exists w_params_c, [(0, KNative); (4, KErc)], e_ledger, 2, e_ops; reflexivity|].
+  vm_compute. repeat split.
+Qed.
